@@ -198,4 +198,16 @@ theorem Chain.reencryption_shares_nothing (cfg : ChainCfg) (lv : Leaves) (K K' :
   rw [e] at h1
   exact hdis _ h1 h2
 
+
+/-- SSE-1: every entry of the look-up table `T` is `(π_K3(w), (first address ‖ first key) ⊕ F_K2(w))` for a stored keyword `w`
+    — the label a PRP output, the value masked by a PRF output — or a pair of random draws of the run.  No keyword, no
+    identifier: the keyword enters only as the argument of the keyed PRP and PRF. -/
+theorem SSE1.table_from_primitives (cfg : SSE1Cfg) (lv : Leaves) (K1 K2 K3 K4 : Bytes) (db : DB) (t t' : Tape) (edb : SSE1EDB)
+    (h : SSE1.setup cfg lv [K1, K2, K3, K4] db t = .ok (edb, t')) :
+    ∀ p ∈ edb.T,
+      (∃ w ids x eta, (w, ids) ∈ db ∧ SSE1.piBytes cfg lv K3 w = .ok p.1 ∧
+          cfg.prfF.call lv.hmac K2 (addLeadingZeros w cfg.l) = .ok eta ∧ bytesXor x eta = .ok p.2) ∨
+      (Draw.bytes p.1 ∈ t ∧ Draw.bytes p.2 ∈ t) :=
+  SSE1.setup_table_from cfg lv K1 K2 K3 K4 db t t' edb h
+
 end SSEPy.C04
